@@ -37,7 +37,7 @@ for d, res in out:
         meta = json.load(open(os.path.join(d, 'meta.json')))
     except Exception:
         pass
-    prop = meta.get('property') or os.path.basename(os.path.dirname(d.rstrip('/')))
+    prop = meta.get('property') or meta.get('breaks_property') or os.path.basename(os.path.dirname(d.rstrip('/')))
     hits = {c: v for c, v in res.items() if c != '_error' and v[0] == 1}
     broken = [c for c, v in res.items() if c != '_error' and v[0] == 2]
     own = prop in hits
